@@ -252,3 +252,28 @@ package components
 //@   loop 1 invariant count: lineNo == scanPos[scanner] + 1 && splitNo >= 1 && fwN[splitFile] == lineNo - 1 - (splitNo - 1) * p.LinesPerSplit && 0 <= fwN[splitFile] && fwN[splitFile] < p.LinesPerSplit
 //@   loop 1 invariant content: forall j int :: 0 <= j && j < fwN[splitFile] ==> fwAt[splitFile][j] == scanLine(scanner, (splitNo - 1) * p.LinesPerSplit + j) + "\n"
 //@   loop 1 invariant part-name: splitIP.path == splitPathOf(inIP.path, splitNo)
+
+// Concatenator: every arriving file is read once and its content, then a newline, is appended to the output file of its
+// group (the main output when it has no value for the GroupByTag tag); the outputs are sent only after all inputs were
+// written and the files were closed.
+//@ extern (*os.File).Write(f, b) (n, err)
+//@   modifies fwN, fwAt
+//@   ensures logged: fwN == update(old(fwN), f, old(fwN)[f] + 1) && fwAt == update(old(fwAt), f, update(old(fwAt)[f], old(fwN)[f], b))
+
+//@ func (*Concatenator).In(p) (res)
+//@   props C19
+//@   ensures def: "in" in p.inPorts && res == p.inPorts["in"]
+//@ func (*Concatenator).Out(p) (res)
+//@   props C19
+//@   ensures def: "out" in p.outPorts && res == p.outPorts["out"]
+
+//@ func (*Concatenator).Run(p)
+//@   props C19
+//@   requires wf: wfSrcOut(p.BaseProcess, "out") && p.inPorts != nil && "in" in p.inPorts && p.inPorts["in"] != nil && p.inPorts["in"].Chan != nil
+//@   modifies *
+//@   atcall io/ioutil.ReadFile reads-the-file-that-arrived[C19]: $arg0 == inIP.path
+//@   atcall (*OutPort).Send outputs-sent-only-after-every-input-was-written[C19]: chanRecvN(p.inPorts["in"].Chan) == chanTotal(p.inPorts["in"].Chan)
+//@   loop 0 invariant stable: p == old(p) && p.outPorts == old(p.outPorts) && p.inPorts == old(p.inPorts) && wfSrcOut(p.BaseProcess, "out") && "in" in p.inPorts && p.inPorts["in"] != nil && p.inPorts["in"].Chan != nil && outIPsByTag != nil && outFhsByTag != nil && validIP(outIP)
+//@   loop 0 step untagged-arrival-appends-content-then-newline[C19]: tagVal == "" ==> fwN[outFh] == prev(fwN)[outFh] + 2 && fwAt[outFh][prev(fwN)[outFh]] == dat && fwAt[outFh][prev(fwN)[outFh] + 1] == "\n" && dat == fileBytes(inIP.path, fsEpoch)
+//@   loop 0 step earlier-content-kept[C19]: tagVal == "" ==> forall j int :: 0 <= j && j < prev(fwN)[outFh] ==> fwAt[outFh][j] == prev(fwAt)[outFh][j]
+//@   loop 0 step tagged-arrival-appends-to-its-group[C19]: tagVal != "" ==> tagVal in outFhsByTag && fwN[outFhsByTag[tagVal]] >= 2 && fwAt[outFhsByTag[tagVal]][fwN[outFhsByTag[tagVal]] - 2] == dat && fwAt[outFhsByTag[tagVal]][fwN[outFhsByTag[tagVal]] - 1] == "\n" && dat == fileBytes(inIP.path, fsEpoch)
